@@ -1075,7 +1075,7 @@ class Moon(object):
         if Epoch.is_leap(y):
             num_days_year = 366.0
         doy = Epoch.get_doy(y, m, d)
-        year = y + doy / num_days_year
+        year = y + (doy - 1.0) / num_days_year
         # Compute the 'k' parameter
         k = round((year - 2000.05) * 13.4223, 0)
         if target == "descending":
